@@ -16,7 +16,7 @@ def batches(max_size, quick):
     for body, feats, size in valgen.programs(max_size, quick):
         name = f"entry_{n}"
         n += 1
-        cur.append((name, valgen.source(name, body), sorted(feats), size))
+        cur.append((name, valgen.source(name, body), sorted(feats), size, body))
         if len(cur) == BATCH:
             yield cur
             cur = []
@@ -92,6 +92,18 @@ def observed_values(ld, entry_id):
 
 def run_batch(batch):
     src = valgen.HELPERS + "\n".join(p[1] for p in batch)
+    header_lines = len(valgen.HELPERS.splitlines())
+    offsets = {}
+    abstract = {}
+    off = 0
+    for p in batch:
+        offsets[p[0]] = off
+        off += len(p[1].splitlines()) + 1          # programs are joined with a blank line
+        if len(p) > 4 and p[4] is not None:
+            try:
+                abstract[p[0]] = valgen.abstract_expected(p[0], p[4])
+            except Exception:
+                abstract[p[0]] = {}
     names = [p[0] for p in batch]
     settings = {"entry.yaml": yaml.safe_dump([{"method_list": names}])}
     r = runner.run_lian({"v.py": src}, "python", "semantic", settings=settings)
@@ -105,7 +117,7 @@ def run_batch(batch):
     mids = {rr.get("name"): rr["stmt_id"] for rr in rows if rr.get("operation") == "method_decl"}
     eps = {int(e) for e in (ld.get_entry_points() or [])}
     res = []
-    for name, text, feats, size in batch:
+    for name, text, feats, size, *_ in batch:
         mid = mids.get(name)
         if mid is None or mid not in eps:
             res.append((name, "not-an-entry", None))
@@ -123,7 +135,9 @@ def run_batch(batch):
         cmp = []
         for key, vals in sorted(truth.items()):
             o, unk = obs.get(key, (set(), False))
-            line = vm.by_id.get(key[0], {})
-            cmp.append((key[0], key[1], sorted(vals), sorted(o), unk, key in obs))
+            row = vm.by_id.get(key[0], {})
+            line = int(row.get("start_row", -1)) + 1
+            exp = abstract.get(name, {}).get((line - header_lines - offsets[name], key[1]))
+            cmp.append((key[0], key[1], sorted(vals), sorted(o), unk, key in obs, sorted(exp) if exp is not None else None))
         res.append((name, "ok", cmp))
     return {"fatal": None, "results": res}
